@@ -86,7 +86,9 @@ func (l *leader) release() {
 		println(l, "stopping followers")
 	}
 	for id, repl := range l.repls {
-		close(repl.stopCh)
+		if !isClosed(repl.stopCh) {
+			close(repl.stopCh)
+		}
 		delete(l.repls, id)
 	}
 	if l.leader == l.nid {
@@ -113,11 +115,14 @@ func (l *leader) release() {
 	l.replUpdateCh = nil
 }
 
-// stopRepls stops the replications and waits for them to finish
+// stopRepls stops the replications and waits for them to finish.
+// note: they are not forgotten until release. the caller that made us
+// step down might still look at their status
 func (l *leader) stopRepls() {
-	for id, repl := range l.repls {
-		close(repl.stopCh)
-		delete(l.repls, id)
+	for _, repl := range l.repls {
+		if !isClosed(repl.stopCh) {
+			close(repl.stopCh)
+		}
 	}
 	l.wg.Wait()
 }
